@@ -17,9 +17,21 @@
    placement of any number of faults and every cancellation point.
    The protocol part of C02 (no deadlock, termination, syncutil.Go / LimitedRegion) is
    Properties/C02_protocol.v. *)
-From Oras Require Import Base.Prelude Model.CopySpec Model.CopyTop Model.CopyFault
-  Proofs.CopySpec Proofs.CopyFault.
+From Oras Require Import Base.Prelude Generated.GC02 Model.CopySpec Model.CopyTop Model.CopyFault
+  Proofs.CopySpec Proofs.CopyFault Proofs.CopyFnFacts.
 Local Open Scope nat_scope.
+
+(* The tie of the hand-modelled error handling to the source (layer T -> P): the syntactic facts
+   about copyGraph.fn (named result `err`; deferred `if err == nil { close(done) }`; the
+   `case <-ctx.Done(): return ctx.Err()` arm of the wait; the errors of Exists / FindSuccessors /
+   syncutil.Go / region.Start / copyNode returned; exactly two `return nil`), about syncutil.Go
+   (`return context.Cause(ctx)` after eg.Wait; a task's error cancels the group; skip when
+   cancelled), LimitedRegion.Start and ExtendedCopyGraph's outer closure, re-read from the Go
+   source on every run (Generated/GC02.v), all hold.  An edit of one of these places makes this
+   theorem fail to check. *)
+Theorem C02_source_facts : c02_source_facts = true.
+Proof. exact source_facts_hold. Qed.
+Print Assumptions C02_source_facts.
 
 (* A destination that started link-closed is link-closed after every accepted trace --
    successful, failed, cancelled, or still running. *)
